@@ -33,16 +33,28 @@ type view struct {
 	cancelT map[int]int
 	closeT  int
 	sends   []Obs // client -> router
+	// senderCancels: progressive calls whose scripted sendProg fails or ends with the context: their
+	// sender goroutine sends one CANCEL of its own, with the hard-coded mode killnowait
+	senderCancels map[int]bool
 }
 
 func newView(sc Scenario, res Result) *view {
 	v := &view{sc: sc, res: res, startT: map[int]int{}, op: map[int]string{}, name: map[int]string{}, ret: map[int][]any{},
-		retT: map[int]int{}, cancelT: map[int]int{}, closeT: -1}
+		retT: map[int]int{}, cancelT: map[int]int{}, closeT: -1, senderCancels: map[int]bool{}}
 	for _, st := range res.Concrete {
 		switch st.Stim {
 		case "api":
 			v.startT[st.G] = st.T
 			v.op[st.G] = st.Op
+			if st.Op == "callprog" {
+				// the API goroutine of CallProgressive is that of Call
+				v.op[st.G] = "call"
+				for _, step := range st.Script {
+					if step.K == "err" || step.K == "ctx" {
+						v.senderCancels[st.G] = true
+					}
+				}
+			}
 			v.name[st.G] = st.Name
 		case "cancel":
 			if _, ok := v.cancelT[st.G]; !ok {
@@ -274,6 +286,16 @@ func check(sc Scenario, res Result, prop string) []Violation {
 		for _, s := range v.sends {
 			if m, ok := s[2].([]any); ok && num(at(m, 0)) == 49 && uint64(num(at(m, 1))) == req {
 				cancels = append(cancels, s)
+			}
+		}
+		if v.senderCancels[g] {
+			// CallProgressive: the sender goroutine's own CANCEL (hard-coded killnowait, whatever the
+			// configured mode: reported as a finding candidate) is not the waiter's
+			for i, cm := range cancels {
+				if m := cm[2].([]any); strOf(at(m, 2)) == "killnowait" {
+					cancels = append(append([]Obs{}, cancels[:i]...), cancels[i+1:]...)
+					break
+				}
 			}
 		}
 		ct, cancelled := v.cancelT[g]
